@@ -96,7 +96,7 @@ LinNew(th, hiT) ==
    LET c == call[th]
        to == IF c.to = 0 THEN dto ELSE c.to IN
    /\ c.op = "new" /\ c.st = "called" /\ flusher = None /\ c.e \notin created
-   /\ \E d \in (IF to = Inf THEN {Inf} ELSE (c.bvt + to) .. (hiT + to)) :
+   /\ \E d \in (IF to = Inf THEN {Inf} ELSE IF hiT - c.bvt > 100 THEN {c.bvt + to, hiT + to} ELSE (c.bvt + to) .. (hiT + to)) :
         /\ dl' = (c.e :> d) @@ dl
         /\ Effect(th, [c EXCEPT !.st = "done", !.ires = d], pending \cup {c.e}, None, hiT)
    /\ created' = created \cup {c.e}
